@@ -421,6 +421,13 @@ fn check_binary(ctx: &mut Ctx, w: &mut Witnesses) {
             jobs.push(Job { name: format!("closed/aggregate/{}/finite/k={}", mname, k), args: sv(&["* | json | count by n", "-o", mode]), endless: false, input: finite.clone(), close_after: Some(k), expect: "exits" });
         }
     }
+    // slow endless input (a line every 120 ms, so the renderer idles between rows): the write error
+    // of the first row after the consumer went away must end the run — it must not be lost in a
+    // buffer or swallowed by an idle-time flush
+    for (mname, mode) in MODES {
+        jobs.push(Job { name: format!("closed/record/{}/slow-endless/k=1", mname), args: sv(&["* | json", "-o", mode]), endless: true, input: block.clone(), close_after: Some(1), expect: "exits-slow" });
+    }
+    jobs.push(Job { name: "closed/record/where/slow-endless/k=1".into(), args: sv(&["* | json | where n >= 0 | fields n", "-o", "logfmt"]), endless: true, input: block.clone(), close_after: Some(1), expect: "exits-slow" });
     // rows larger than stdout's line buffer, -o json
     // rows larger than a pipe buffer: the write is blocked *inside* a row when the consumer goes away
     jobs.push(Job { name: "closed/record/json-rows-70000B/finite/k=10".into(), args: sv(&["* | json", "-o", "json"]), endless: false, input: big_row_input(60, 70000), close_after: Some(10), expect: "exits" });
@@ -459,7 +466,13 @@ fn check_binary(ctx: &mut Ctx, w: &mut Witnesses) {
         }
     };
     for j in mine {
-        let feed = if j.endless { Feed::Endless(j.input.clone()) } else { Feed::Finite(j.input.clone()) };
+        let feed = if j.expect == "exits-slow" {
+            Feed::Paced(j.input.clone(), 120)
+        } else if j.endless {
+            Feed::Endless(j.input.clone())
+        } else {
+            Feed::Finite(j.input.clone())
+        };
         let t0 = Instant::now();
         let o = run_proc(&bin, &j.args, feed, j.close_after, 0, CEILING);
         let info = json!({"case": j.name, "args": j.args, "input": if j.endless { "endless" } else { "finite" }, "input_bytes_per_round": j.input.len(),
@@ -467,7 +480,7 @@ fn check_binary(ctx: &mut Ctx, w: &mut Witnesses) {
         let key = format!("bin:{}", j.name);
         let clean = !o.timed_out && !o.crashed() && o.error_lines() <= 1 && o.stderr.lines().count() <= 12;
         match j.expect {
-            "exits" => {
+            "exits" | "exits-slow" => {
                 if clean {
                     ctx.case("binary", &key, "pass", info);
                 } else if o.timed_out {
